@@ -402,16 +402,19 @@ func genReconn(r *Rng, prop string) *Scenario {
 		default:
 			w = []int{5, 5, 3, 2, 2, 2, 1, 2, 1, 1, 0, 0, 0}
 		}
+		if prop == "C11" {
+			w[10], w[12] = 2, 1 // an acknowledgement that never comes / a peer going silent, while calls are made
+		}
 		if prop == "C03" && cfg.ResponseTimeoutUs != 0 {
 			w[10], w[11] = 4, 2 // acknowledgements that do not come in time on a link that stays up
 		}
 		if cfg.TimeoutUs == 0 {
 			w[6] = 0 // connackNever needs a connect timeout
 		}
-		if !dropKinds && cfg.ResponseTimeoutUs == 0 && cfg.PingIntervalUs == 0 {
+		if !dropKinds && cfg.ResponseTimeoutUs == 0 && cfg.PingIntervalUs == 0 && prop != "C11" {
 			w[10], w[11], w[12] = 0, 0, 0
 		}
-		if cfg.PingIntervalUs == 0 && prop != "C18" && prop != "C19" {
+		if cfg.PingIntervalUs == 0 && prop != "C18" && prop != "C19" && prop != "C11" {
 			w[12] = 0
 		}
 		kinds := []string{"cutBefore", "cutAfter", "cutAfterResp", "cutAt", "writeErr", "connackRefuse", "connackNever", "dialErr", "dialStall", "sessionLoss", "dropB2C", "dropC2B", "silentFrom"}
@@ -571,6 +574,12 @@ func genReconn(r *Rng, prop string) *Scenario {
 		}
 	}
 
+	if prop == "C11" && r.chance(0.3) {
+		// Ping through the reconnecting client, with a deadline, while other calls are made
+		for i := 0; i < int(r.between(1, 2)); i++ {
+			sc.Ops = append(sc.Ops, Op{AtUs: connectAt + r.between(500, lastOp+maxBackoff+5000), Actor: 7 + i, Kind: "ping", CtxTimeoutUs: r.between(200, 3000)})
+		}
+	}
 	if prop == "C13" && !cfg.EarlyReply && r.chance(0.4) {
 		// the application pings as well, with a context that ends before the
 		// answer can arrive: an abandoned ping whose late PINGRESP must not be
